@@ -260,6 +260,64 @@ func c12DanglingIR(schemas ast.Schemas, schema *ast.Schema) []string {
 	return bad
 }
 
+// c12MalformedType: a Kind whose payload pointer is nil, or a constraint without arguments — IR no
+// front-end produces (C04 owns what cog does with it).
+func c12MalformedType(t ast.Type) bool {
+	switch t.Kind {
+	case ast.KindStruct:
+		if t.Struct == nil {
+			return true
+		}
+		for _, f := range t.Struct.Fields {
+			if c12MalformedType(f.Type) {
+				return true
+			}
+		}
+	case ast.KindScalar:
+		if t.Scalar == nil {
+			return true
+		}
+		for _, c := range t.Scalar.Constraints {
+			if len(c.Args) == 0 {
+				return true
+			}
+		}
+	case ast.KindRef:
+		return t.Ref == nil
+	case ast.KindEnum:
+		return t.Enum == nil
+	case ast.KindArray:
+		return t.Array == nil || c12MalformedType(t.Array.ValueType)
+	case ast.KindMap:
+		return t.Map == nil || c12MalformedType(t.Map.ValueType)
+	case ast.KindDisjunction:
+		if t.Disjunction == nil {
+			return true
+		}
+		for _, b := range t.Disjunction.Branches {
+			if c12MalformedType(b) {
+				return true
+			}
+		}
+	}
+	return false
+}
+
+func c12MalformedInput(schemas ast.Schemas, schema *ast.Schema) bool {
+	bad := false
+	schema.Objects.Iterate(func(_ string, o ast.Object) {
+		if c12MalformedType(o.Type) {
+			bad = true
+		}
+	})
+	for _, o := range c12ForeignObjects(schemas, schema).objs {
+		if c12MalformedType(o.Type) {
+			bad = true
+		}
+	}
+	return bad
+}
+
 // ---- presence + carried over ---------------------------------------------------------------
 
 func c12JSONOf(v any) (JV, bool) {
@@ -555,18 +613,51 @@ func c12CheckDefinitions(schemas ast.Schemas, schema *ast.Schema, defs JV, prefi
 
 // ---- known mechanisms as schema repairs ----------------------------------------------------
 
-// c12RepairNode rewrites the emitted node of an IR type: fixAny turns the `{type: object}` written for
-// `any` (and composable slots) into the unconstrained schema; fixNull admits `null` wherever the IR
-// type is nullable. The walk follows the IR, not the document, so it only touches nodes the emitter
-// wrote for these reasons.
-func c12RepairNode(t ast.Type, node JV, fixAny, fixNull bool) JV {
+// c12Fix selects the recorded mechanisms to repair in the emitted schema.
+type c12Fix struct {
+	any       bool // `{type: object}` written for `any` / composable slots → unconstrained
+	null      bool // admit `null` wherever the IR type is nullable
+	nullUnion bool // union with a `null` branch and two or more other branches (CUE `null | #A | #B`): the Go
+	// jenny emits a plain struct for it (finding C01/cue/nullable-union-of-structs-not-discriminated) → unconstrained
+	enumSign bool // CUE one-member enum of a negative integer (`-1 @cog(kind="enum",memberNames="Neg1")`) reaches the
+	// IR with the sign lost (member Neg1 = 1): the emitted `enum: [1]` rejects the source value → admit the negated value
+}
+
+// c12SignLostEnum: an enum member named Neg<k> holding the positive value k.
+func c12SignLostEnum(t ast.Type) bool {
+	if t.Kind != ast.KindEnum || t.Enum == nil {
+		return false
+	}
+	for _, v := range t.Enum.Values {
+		if n, ok := v.Value.(int64); ok && n > 0 && v.Name == fmt.Sprintf("Neg%d", n) {
+			return true
+		}
+	}
+	return false
+}
+
+func c12IsNullUnion(t ast.Type) bool {
+	if t.Kind != ast.KindDisjunction || t.Disjunction == nil || len(t.Disjunction.Branches) < 3 {
+		return false
+	}
+	for _, b := range t.Disjunction.Branches {
+		if b.Kind == ast.KindScalar && b.Scalar != nil && b.Scalar.ScalarKind == ast.KindNull {
+			return true
+		}
+	}
+	return false
+}
+
+// c12RepairNode rewrites the emitted node of an IR type. The walk follows the IR, not the document,
+// so it only touches nodes the emitter wrote for these reasons.
+func c12RepairNode(t ast.Type, node JV, fix c12Fix) JV {
 	if node.K != 'o' {
 		return node
 	}
 	out := node.clone()
 	switch {
 	case t.Kind == ast.KindScalar && t.Scalar != nil && t.Scalar.ScalarKind == ast.KindAny, t.Kind == ast.KindComposableSlot:
-		if fixAny {
+		if fix.any {
 			out = jObj()
 		}
 	case t.Kind == ast.KindStruct && t.Struct != nil:
@@ -574,36 +665,48 @@ func c12RepairNode(t ast.Type, node JV, fixAny, fixNull bool) JV {
 			np := props.clone()
 			for _, f := range t.Struct.Fields {
 				if p, ok := np.get(f.Name); ok {
-					np.set(f.Name, c12RepairNode(f.Type, p, fixAny, fixNull))
+					np.set(f.Name, c12RepairNode(f.Type, p, fix))
 				}
 			}
 			out.set("properties", np)
 		}
 	case t.Kind == ast.KindArray && t.Array != nil:
 		if it, ok := out.get("items"); ok {
-			out.set("items", c12RepairNode(t.Array.ValueType, it, fixAny, fixNull))
+			out.set("items", c12RepairNode(t.Array.ValueType, it, fix))
 		}
 	case t.Kind == ast.KindMap && t.Map != nil:
 		if it, ok := out.get("additionalProperties"); ok {
-			out.set("additionalProperties", c12RepairNode(t.Map.ValueType, it, fixAny, fixNull))
+			out.set("additionalProperties", c12RepairNode(t.Map.ValueType, it, fix))
+		}
+	case c12IsNullUnion(t) && fix.nullUnion:
+		out = jObj()
+	case c12SignLostEnum(t) && fix.enumSign:
+		if vals, ok := out.get("enum"); ok && vals.K == 'a' {
+			nv := vals.clone()
+			for _, v := range t.Enum.Values {
+				if n, ok := v.Value.(int64); ok && n > 0 && v.Name == fmt.Sprintf("Neg%d", n) {
+					nv.A = append(nv.A, jInt(-n))
+				}
+			}
+			out.set("enum", nv)
 		}
 	case t.Kind == ast.KindDisjunction && t.Disjunction != nil:
 		if alts, ok := out.get("anyOf"); ok && alts.K == 'a' && len(alts.A) == len(t.Disjunction.Branches) {
 			na := alts.clone()
 			for i, b := range t.Disjunction.Branches {
-				na.A[i] = c12RepairNode(b, na.A[i], fixAny, fixNull)
+				na.A[i] = c12RepairNode(b, na.A[i], fix)
 			}
 			out.set("anyOf", na)
 		}
 	}
-	if fixNull && t.Nullable {
+	if fix.null && t.Nullable {
 		return jObj(kv("anyOf", jArr(out, jObj(kv("type", jStr("null"))))))
 	}
 	return out
 }
 
 // c12Repair applies c12RepairNode to the definitions of the objects of schema.
-func c12Repair(schema *ast.Schema, emitted JV, fixAny, fixNull bool) JV {
+func c12Repair(schema *ast.Schema, emitted JV, fix c12Fix) JV {
 	out := emitted.clone()
 	defs, ok := out.get("definitions")
 	if !ok || defs.K != 'o' {
@@ -612,27 +715,42 @@ func c12Repair(schema *ast.Schema, emitted JV, fixAny, fixNull bool) JV {
 	nd := defs.clone()
 	schema.Objects.Iterate(func(_ string, o ast.Object) {
 		if d, ok := nd.get(o.Name); ok {
-			nd.set(o.Name, c12RepairNode(o.Type, d, fixAny, fixNull))
+			nd.set(o.Name, c12RepairNode(o.Type, d, fix))
 		}
 	})
 	out.set("definitions", nd)
 	return out
 }
 
-// c12ExplainedBy: which of the recorded mechanisms (alone or together) make the document valid
-// once repaired in the emitted schema; "" when none does.
+// c12ExplainedBy: the smallest set of recorded mechanisms whose repair in the emitted schema makes the
+// document valid ("any", "nullable", "nullunion", "enumsign", joined by + in that order); "" when none does.
 func c12ExplainedBy(schema *ast.Schema, emitted JV, root string, doc JV) string {
-	try := func(fixAny, fixNull bool) bool {
-		rv, err := newRefValidator("jsonschema", c12Repair(schema, emitted, fixAny, fixNull).json(), root)
-		return err == nil && rv.validate(doc) == nil
+	type cand struct {
+		name string
+		fix  c12Fix
 	}
-	switch {
-	case try(true, false):
-		return "any"
-	case try(false, true):
-		return "nullable"
-	case try(true, true):
-		return "any+nullable"
+	names := []string{"any", "nullable", "nullunion", "enumsign"}
+	var cands []cand
+	for size := 1; size <= len(names); size++ {
+		for mask := 1; mask < 1<<len(names); mask++ {
+			var parts []string
+			for i := range names {
+				if mask&(1<<i) != 0 {
+					parts = append(parts, names[i])
+				}
+			}
+			if len(parts) != size {
+				continue
+			}
+			cands = append(cands, cand{strings.Join(parts, "+"),
+				c12Fix{any: mask&1 != 0, null: mask&2 != 0, nullUnion: mask&4 != 0, enumSign: mask&8 != 0}})
+		}
+	}
+	for _, c := range cands {
+		rv, err := newRefValidator("jsonschema", c12Repair(schema, emitted, c.fix).json(), root)
+		if err == nil && rv.validate(doc) == nil {
+			return c.name
+		}
 	}
 	return ""
 }
